@@ -561,6 +561,20 @@ func genTyped(emit func(string), tier string, rng *Rng) {
 				count("reset-reuse")
 			}
 		}
+		// more fields than the conversion pool holds (poolsize = the longest message): unknown fields beyond it, known ones after them
+		if t.num%8 == 0 || tier == "thorough" {
+			var m proto.Message
+			m.Num = t.num
+			for k := 0; k < 300; k++ {
+				m.Fields = append(m.Fields, unknownField(k%256, proto.Uint8(uint8(k)), k%7 == 0))
+			}
+			for i := range t.slots {
+				m.Fields = append(m.Fields, stdField(t, t.slots[i].num, slotValue(&t.slots[i], 0, r), false))
+			}
+			em("typedms", "o:i,std", &m)
+			em("typedrt", "o:-,std", &m)
+			count("beyond-poolsize")
+		}
 		// structs → message → struct
 		for j := 0; j < nStruct; j++ {
 			s := t.newStruct(nil)
